@@ -1089,3 +1089,23 @@ def rule_sig_upd(text):
         apps.append(_app("R-handle", text, mm.start(), mm.end(), "InstantH", "opaque handle for std::time::Instant"))
         text = text[:mm.start()] + "InstantH" + text[mm.end():]
     return text, apps
+
+
+def rule_flushmisc(text):
+    """force_flush one-offs"""
+    apps = []
+    table = [
+        (r"\(\s*0\s*\.\.\s*([\w.]+\(\))\s*\)\s*\.\s*collect\s*\(\s*\)", r"range_vec(\1)", "R-rangevec", "shim: collecting 0..n into a Vec"),
+        (r"for\s+(\w+)\s+in\s+(\w+)\s*\.\s*drain\s*\(\s*\.\.\s*\)\s*\{", r"let mut \2_q_ = VecQueue::new(vec_take_all(&mut \2)); while let Some(\1) = \2_q_.pop_front() {", "R-drainall", "shim: a full drain consumed by the loop = all elements in order, source left empty"),
+        (r"\.\s*map_err\s*\(\s*\|\s*_\s*\|\s*(FeoxError::\w+)\s*\)\s*\?\s*;", r".is_ok() || { return Err(\1); };", "R-maperr", "map_err with a constant error + `?` on a unit Result = return that error on failure"),
+        (r"thread\s*::\s*sleep\s*\(\s*Duration\s*::\s*from_micros\s*\(\s*([^()]*)\)\s*\)", r"sleep_micros(\1)", "R-backoff", "shim: sleeping changes no program state"),
+    ]
+    for pat, rep, rname, why in table:
+        while True:
+            mm = re.search(pat, text)
+            if not mm:
+                break
+            new = mm.expand(rep)
+            apps.append(_app(rname, text, mm.start(), mm.end(), new, why))
+            text = text[:mm.start()] + new + text[mm.end():]
+    return text, apps
